@@ -70,8 +70,17 @@ def _inst_catD(app):
             z3.Implies(m >= 1, app == z3.Concat(catD(lid, s, m - 1), D_data(lid, s + m - 1)))]
 
 
+rep = z3.Function('rep', Bytes, IntS, Bytes)      # b repeated n times
+
+
+def _inst_rep(app):
+    b, n = app.arg(0), app.arg(1)
+    return [z3.Implies(n <= 0, app == EMPTY),
+            z3.Implies(n >= 1, app == z3.Concat(rep(b, n - 1), b))]
+
+
 INSTANCES = {'le32': _inst_le32, 'unle32': _inst_unle32, 'bsum': _inst_bsum, 'zeros': _inst_zeros,
-             'decimal': _inst_decimal}
+             'decimal': _inst_decimal, 'catD': _inst_catD, 'rep': _inst_rep}
 # catD's unfolding is added only on request (it creates new catD terms): see axioms_for(..., unfold=...)
 
 EXTRA_INSTANCES = {}      # contracts may register more (name -> fn(app) -> [formulas])
